@@ -6,6 +6,7 @@ import (
 	"bytes"
 	"fmt"
 	"os"
+	"sort"
 	"strings"
 	"unicode/utf8"
 )
@@ -57,5 +58,18 @@ func VerifC19_ModelSelfTest() {
 	vObserve("runes", utf8.RuneCountInString("héllo"))
 	vObserve("upper", strings.ToUpper("abc"))
 	vObserve("fields", len(strings.Fields(" a  b ")))
+	up := strings.Map(func(r rune) rune {
+		if r == 'a' {
+			return 'A'
+		}
+		return r
+	}, "banana")
+	vObserve("map", up)
+	vObserve("indexfunc", strings.IndexFunc("ab1c", func(r rune) bool { return r >= '0' && r <= '9' }))
+	vObserve("trimfunc", strings.TrimFunc("  x y  ", func(r rune) bool { return r == ' ' }))
+	vObserve("fieldsfunc", len(strings.FieldsFunc("a,b;;c", func(r rune) bool { return r == ',' || r == ';' })))
+	names := []string{"b", "a", "c"}
+	sort.SliceStable(names, func(i, j int) bool { return names[i] < names[j] })
+	vObserve("slicestable", strings.Join(names, ""))
 	vReach("done")
 }
